@@ -337,6 +337,32 @@ _LOGLEVEL = re.compile(r'^cmp\((?:const\()?(?:log::)?Level::\w+(?:\(\))?\)?,(?:c
 _PANIC = re.compile(r'^(core|std)::(panicking::|rt::begin_panic|rt::panic_fmt|option::expect_failed|result::unwrap_failed|option::unwrap_failed)')
 
 
+def panics_only(body, bb, _memo=None):
+    """Every path from block bb ends in a panic function (the failing side of assert!/debug_assert!/unreachable!)."""
+    cache = body.__dict__.setdefault('_panics_only', {})
+    if bb in cache:
+        return cache[bb]
+    cache[bb] = False       # cycles: not panic-only
+    t = body.blocks[bb]['term']
+    k = t['t']
+    res = False
+    if k == 'call':
+        from .facts import callee_name
+        if t.get('to') is None:
+            res = bool(_PANIC.search(callee_name(t) or ''))
+        else:
+            res = panics_only(body, t['to'])
+    elif k in ('goto', 'drop', 'assert'):
+        res = panics_only(body, t['to'])
+    elif k == 'switch':
+        tg = [tb for _v, tb in t['targets']] + [t['otherwise']]
+        res = all(panics_only(body, x) for x in tg if x is not None)
+    elif k == 'unreachable':
+        res = True
+    cache[bb] = res
+    return res
+
+
 def enumerate_paths(body, facts=None, start=0, max_paths=50000, stop_calls=None, max_visits=1):
     """All acyclic paths start -> return (or -> a call in stop_calls)."""
     if facts is not None or getattr(body, 'facts', None) is not None:
@@ -538,9 +564,16 @@ def enumerate_paths(body, facts=None, start=0, max_paths=50000, stop_calls=None,
                     idents = dict(idents)
                     idents[vp] = ident
                     env['__ident__'] = idents
+            live = [tb for tb in edges if not panics_only(body, tb)]
             for tb, labs in sorted(edges.items()):
                 if vp in cm and not (cm[vp] & labs):
                     continue  # infeasible: contradicts an earlier test of the same value
+                if tb not in live:
+                    continue  # the failing side of an assertion: no outcome to judge
+                if len(live) == 1 and len(edges) > 1:
+                    # the test of an `assert!`/`debug_assert!`: the only continuing side is not a decision of the function
+                    rec(tb, env, conds, events, blocks, last0)
+                    continue
                 if _LOGLEVEL.match(strip_suffix(vp)):
                     # the level test inside `debug!`/`info!`/..: both sides are followed, the test is not a condition of
                     # the path table (what happens under it is still seen as events of the path)
